@@ -292,6 +292,17 @@ pub fn cmd_e1(args: &Args) -> i32 {
     code
 }
 
+/// Only the sequential references of one run (used to classify a crash: does
+/// the sequential build die on this input too?).
+pub fn cmd_ref(args: &Args) -> i32 {
+    let seed = args.u64("seed", 1);
+    let idx = args.u64("start", 0);
+    let plan = plan_run(seed, idx, &limits(args));
+    let refs = reference(&plan);
+    println!("references computed: {}", refs.len());
+    0
+}
+
 /// One line per run, for determinism diffs between processes.
 pub fn cmd_trace(args: &Args) -> i32 {
     let seed = args.u64("seed", 1);
